@@ -21,9 +21,9 @@ CLASSIFY_PURE = [
 ]
 
 _PURE_NOTE = ("Assumed: numpy primitives as specified in pyvc/libspec.py; floats as reals; int64 does not overflow; "
-              "the deferred-acceptance while loop terminates (variant find_stable_matching#terminates: the number of candidates left over "
-              "all storms decreases with every iteration and is never negative; lemmas point_decrement_sum, prefix_sums_monotone); "
-              "termination of the for loops over finite sequences is by construction. Every SQL statement enters through an assumed "
+              "(not assumed but proved: the deferred-acceptance while loop terminates -- variant find_stable_matching#terminates, the number "
+              "of candidates left over all storms decreases with every iteration and is never negative; lemmas point_decrement_sum, "
+              "prefix_sums_monotone; for loops range over finite sequences). Every SQL statement enters through an assumed "
               "contract (contracts/sql.py, keyed by the statement text read from /repo) and the Loaded(db) facts stated there; "
               "the contract of disambiguate_matching (including the C02 clause) is also evaluated natively on all small "
               "many-to-many relations (validation of the contract text, not counted in `discharged`).")
@@ -41,7 +41,8 @@ PROPS = {
         "bounded": [_tables("C01")],
         "level_text": "Unbounded proof, function by function, that the array-level classification functions (run detector, "
                       "candidate intervals, match_storms, deferred-acceptance loop, uniform-step check) meet contracts written "
-                      "from the property: no exception on any admitted input, one-to-one pairing, every pair shares a time "
+                      "from the property: no exception on any admitted input, termination of the deferred-acceptance loop (decreasing "
+                      "measure), one-to-one pairing, every pair shares a time "
                       "step. disambiguate_matching is proved from find_stable_matching's contract (adjacency tables, candidate "
                       "lists = reordered adjacency lists without repetition, every listed rise ranks its storms, read-back through "
                       "the start -> stop tables: the output pairs are input pairs, no storm and no rise twice), and match_storms "
